@@ -715,11 +715,11 @@ Proof.
   set (b0 := default_bounds (length utext) (Z.to_nat nfolds)) in *.
   destruct (bugfix utext b0) as [b|e] eqn:Eb; cbn [bind] in H; [|discriminate].
   destruct (Z.eq_dec nfolds 1) as [E1|Hne].
-  - subst nfolds. rewrite fold_one_fold in H. cbn [bind fst snd] in H. inversion H; subst.
+  - subst nfolds. rewrite fold_one_fold in H by (intros ->; cbn [length] in Hle; lia).
+    cbn [bind fst snd] in H. inversion H; subst.
     split; [reflexivity|]. exists utext, b. repeat split; try assumption. left. now repeat split.
   - assert (Hv : valid_bounds b) by (apply (bugfix_valid utext (length utext) (Z.to_nat nfolds)); [lia|lia|exact Eb]).
-    unfold fold in H. destruct (Z.eqb_spec nfolds 1) as [|_]; [contradiction|].
-    rewrite (fold_with_ok utext b Hv) in H. cbn [bind] in H. inversion H; subst.
+    rewrite (fold_custom_ok utext nfolds b) in H by (lia || exact Hv). cbn [bind] in H. inversion H; subst.
     split; [reflexivity|]. exists utext, b. repeat split; try assumption. right.
     repeat split; try lia; apply Hv.
 Qed.
@@ -998,11 +998,10 @@ Proof.
     set (b0 := default_bounds (length utext) (Z.to_nat nfolds)) in *.
     destruct (bugfix utext b0) as [b|e'] eqn:Eb; cbn [bind] in H.
     + exfalso. destruct (Z.eq_dec nfolds 1) as [E1|Hne].
-      * subst nfolds. rewrite fold_one_fold in H. discriminate.
+      * subst nfolds. rewrite fold_one_fold in H by (intros ->; cbn [length] in Hle; lia). discriminate.
       * assert (Hv : valid_bounds b)
           by (apply (bugfix_valid utext (length utext) (Z.to_nat nfolds)); [lia|lia|exact Eb]).
-        unfold fold in H. destruct (Z.eqb_spec nfolds 1) as [|_]; [contradiction|].
-        rewrite (fold_with_ok utext b Hv) in H. discriminate.
+        rewrite (fold_custom_ok utext nfolds b) in H by (lia || exact Hv). discriminate.
     + inversion H; subst. apply (bugfix_only_value_error utext b0 e Eb).
       apply default_bounds_in_range; lia.
   - inversion H; subst. right. apply mapM_raise in Eu. destruct Eu as (u & Hu & Hr).
